@@ -460,7 +460,7 @@ func c11Compositions(N int, f func([]int)) {
 
 func genC11(o *hx.Out, r *hx.Rng, tier string, replay string) error {
 	thorough := tier == "thorough"
-	o.Rule = "kind utest: every pair of multisets over the ordered alphabet {0,1,2,3} with sizes up to the bound (presented in shuffled order) x 3 alternatives, empty samples, random samples with sizes 20-60 on both sides of the 25/50 switches (untied, heavily tied, lightly tied, all equal, shifted); a deterministic sweep over every pooled size N = 18..50 in the tied exact regime (all near-even splits, a subset of the others; big runs, several runs, light ties) and N = 18..36 untied; constant samples given by their sizes (n1 and n2 copies of one value, up to 165146+165146 values: must be ErrSamplesEqual); kind udist: every tie vector (composition of N) x every n1 through UDist.CDF/PMF at every half-integer plus quarter points, untied UDist for all small n1,n2. non-trivial = not an error case; distinct by input"
+	o.Rule = "kind utest: every pair of multisets over the ordered alphabet {0,1,2,3} with sizes up to the bound (presented in shuffled order) x 3 alternatives, empty samples, random samples with sizes 20-60 on both sides of the 25/50 switches (untied, heavily tied, lightly tied, all equal, shifted); a deterministic sweep over every pooled size N = 18..50 in the tied exact regime (all near-even splits, a subset of the others; big runs, several runs, light ties) and N = 18..36 untied; untied samples with BOTH sizes in 30..50 (per seed one balanced pair 38..50 each, one equal pair 34..50, one unbalanced pair 30..33 vs 47..50 in either order, one free pair; C(n1+n2,n1) > 2^64 for all) with the statistic placed, by random adjacent exchanges, at 8 positions of the null distribution (both extreme tails, both 2.5-4 sigma tails, both 0.1-1.5 sigma shoulders, the centre and its neighbour) x 3 alternatives, and the same distributions through UDist.CDF/PMF at these points, U + 1/2 and the usual end/centre/random points; constant samples given by their sizes (n1 and n2 copies of one value, up to 165146+165146 values: must be ErrSamplesEqual); kind udist: every tie vector (composition of N) x every n1 through UDist.CDF/PMF at every half-integer plus quarter points, untied UDist for all small n1,n2. non-trivial = not an error case; distinct by input"
 	nmax := 4
 	if thorough {
 		nmax = 5
@@ -770,5 +770,122 @@ func genC11(o *hx.Out, r *hx.Rng, tier string, replay string) error {
 			c11DCaseAt(o, n1, n2, nil, c11FewPoints(r, n1, n2, false), "size-sweep-untied")
 		}
 	}
+	// (i) untied samples in the exact regime with BOTH sizes large (30..50): balanced
+	// pairs (38..50 each), an equal pair, an unbalanced pair (30..33 vs 47..50) and a
+	// free pair, different ones for every seed; C(n1+n2, n1) exceeds 2^64 for all of
+	// them. For every pair the statistic is placed at chosen positions of the null
+	// distribution: both extreme tails, both moderate tails (2.5..4 sigma), both
+	// shoulders (0.1..1.5 sigma), the centre (U1 == U2 when n1 n2 is even) and its
+	// neighbour (the "sum the smaller tail and flip" boundary of UDist.CDF); all three
+	// alternatives; and the same distribution through UDist.CDF/PMF at these points.
+	npairs := 4
+	if thorough {
+		npairs = 40
+	}
+	for i := 0; i < npairs; i++ {
+		var n1, n2 int
+		class := ""
+		switch i % 4 {
+		case 0:
+			n1, n2, class = r.Range(38, 50), r.Range(38, 50), "balanced-38-50"
+		case 1:
+			n1 = r.Range(34, 50)
+			n2, class = n1, "equal-34-50"
+		case 2:
+			n1, n2, class = r.Range(30, 33), r.Range(47, 50), "unbalanced-30-vs-50"
+			if r.Bool() {
+				n1, n2 = n2, n1
+			}
+		case 3:
+			n1, n2, class = r.Range(30, 50), r.Range(30, 50), "free-30-50"
+			for c11Choose(n1+n2, n1).BitLen() <= 64 {
+				n1, n2 = min(50, n1+1), min(50, n2+1)
+			}
+		}
+		o.Count("large-untied-sizes:" + class)
+		if c11Choose(n1+n2, n1).BitLen() > 64 {
+			o.Count("large-untied:arrangements>2^64")
+		}
+		m := n1 * n2
+		sigma := math.Sqrt(float64(m) * float64(n1+n2+1) / 12)
+		at := func(k float64) int { return max(0, min(m, int(math.Round(float64(m)/2+k*sigma)))) }
+		kt, ks := 2.5+1.5*r.Float(), 0.1+1.4*r.Float()
+		adj := 1
+		if r.Bool() {
+			adj = -1
+		}
+		type pos struct {
+			name string
+			u    int
+		}
+		positions := []pos{
+			{"extreme-low", r.Intn(4)}, {"tail-low", at(-kt)}, {"shoulder-low", at(-ks)},
+			{"centre", m / 2}, {"centre-neighbour", m/2 + adj},
+			{"shoulder-high", at(ks)}, {"tail-high", at(kt)}, {"extreme-high", m - r.Intn(4)},
+		}
+		qs := c11FewPoints(r, n1, n2, false)
+		for _, ps := range positions {
+			x1, x2 := c11UntiedWithU(r, n1, n2, ps.u)
+			if got := c11TwoU(x1, x2); got != 2*ps.u {
+				return fmt.Errorf("c11: constructed U = %d/2, wanted %d", got, ps.u)
+			}
+			o.Count("large-untied-U:" + ps.name)
+			for _, alt := range alts {
+				c11UCase(o, x1, x2, alt, "large-untied")
+			}
+			qs = append(qs, 4*ps.u, 4*ps.u+2) // U and U + 1/2 (CDF takes the floor)
+		}
+		c11DCaseAt(o, n1, n2, nil, qs, "large-untied")
+	}
 	return nil
+}
+
+// c11UntiedWithU builds two samples of distinct integers (n1 and n2 of them, no
+// value shared) whose statistic is exactly U: a random arrangement of the pooled
+// ranks, moved to the target by random adjacent exchanges (each changes U by one),
+// values spread with random gaps, each sample in shuffled order.
+func c11UntiedWithU(r *hx.Rng, n1, n2, U int) (x1, x2 []int64) {
+	N := n1 + n2
+	lab := make([]int, N) // rank order; 1 = first sample
+	for i := 0; i < n1; i++ {
+		lab[i] = 1
+	}
+	for i := N - 1; i > 0; i-- {
+		j := r.Intn(i + 1)
+		lab[i], lab[j] = lab[j], lab[i]
+	}
+	cur, below := 0, 0
+	for _, l := range lab {
+		if l == 1 {
+			cur += below
+		} else {
+			below++
+		}
+	}
+	var cand []int
+	for cur != U {
+		cand = cand[:0]
+		for i := 0; i+1 < N; i++ {
+			if cur < U && lab[i] == 1 && lab[i+1] == 0 || cur > U && lab[i] == 0 && lab[i+1] == 1 {
+				cand = append(cand, i)
+			}
+		}
+		i := cand[r.Intn(len(cand))]
+		lab[i], lab[i+1] = lab[i+1], lab[i]
+		if cur < U {
+			cur++
+		} else {
+			cur--
+		}
+	}
+	v := int64(-60 + r.Intn(40))
+	for _, l := range lab {
+		v += int64(1 + r.Intn(4))
+		if l == 1 {
+			x1 = append(x1, v)
+		} else {
+			x2 = append(x2, v)
+		}
+	}
+	return c11Shuffle(r, x1), c11Shuffle(r, x2)
 }
